@@ -93,6 +93,9 @@ def _inline_block(stmts, fn):
         changed = True
         break
   for st in stmts:
+    if isinstance(st, (ast.FunctionDef, ast.AsyncFunctionDef)):
+      _inline_block(st.body, st)   # a nested function has its own locals
+      continue
     for field in ('body', 'orelse', 'finalbody'):
       blk = getattr(st, field, None)
       if isinstance(blk, list) and blk and isinstance(blk[0], ast.stmt) and not isinstance(st, (ast.FunctionDef, ast.ClassDef)):
